@@ -254,6 +254,19 @@ LookupLatest ==
           ELSE LET m == CHOOSE i \in mine : \A j \in mine : j <= i IN
                Lookup(file, k) = (IF recs[m].val = NULLV THEN NONE ELSE m)
 
+(* ---- link to the unbounded statement (IndexRefine.tla, checked by TLAPS) ---------------------- *)
+(* The records the parser accepts, in file order, ARE a log in the sense of IndexRefine; the fold *)
+(* of index::find over them yields what IndexRefine!Yields defines (last record of the key wins,  *)
+(* a tombstone clears).  TLC checks this identification of the two definitions in every reachable *)
+(* state of the token-level model (damaged files included); TLAPS proves, for logs of ANY length  *)
+(* over ANY key set, that Yields refines a plain map under append / tombstone / junk lines and    *)
+(* that invalidating one record changes no other key's answer.                                    *)
+AbsVal(i) == IF recs[i].val = NULLV THEN NONE ELSE i
+AbsLog == [j \in 1..Len(Parsed) |-> [key |-> recs[Parsed[j]].key, val |-> AbsVal(Parsed[j]), ok |-> TRUE]]
+IR == INSTANCE IndexRefine WITH Key <- Keys, Val <- 1..MaxAppends, None <- NONE,
+                                log <- AbsLog, map <- [k \in Keys |-> Lookup(file, k)]
+RefinesAbstract == IR!TypeOK /\ IR!Refines
+
 \* C04: a torn append changes no lookup; C04/C06: an append is always effective, whatever
 \* the file looked like before (the leading newline terminates any fragment)
 TornAtomic ==
